@@ -51,7 +51,9 @@ for d in sorted(os.listdir(os.path.join(V, "seeded"))):
         else:                           # rounds 2 and 3: checks as they were when the agents of that round delivered
             r3 = d[3] in "ef"
             r4 = d[3] in "gh"
-            meta["first_pass"] = {"what": ("checks as committed when the fourth-round changes were delivered (commit bd962ca; C08-C11, C19: 8c00d0e), before the "
+            r5 = d[3] in "ij"
+            meta["first_pass"] = {"what": ("checks as committed when the fifth-round changes were delivered (commit ROUND5COMMIT), before the fifth "
+                                           "strengthening") if r5 else ("checks as committed when the fourth-round changes were delivered (commit bd962ca; C08-C11, C19: 8c00d0e), before the "
                                            "fourth strengthening") if r4 else
                                           ("checks as committed when the third-round changes were delivered (commit 4361130 for C01-C03, C05, "
                                            "C07-C09, C12-C14, C16, C17; commit 4759e5b for the others), before the third strengthening") if r3 else
